@@ -180,7 +180,9 @@ PROBES_V = {"unique": lambda o: o.unique(), "invert": lambda o: ~o, "pluck": lam
             "to_object": lambda o: o.to_object(), "dropna": lambda o: o.dropna(), "cast": lambda o: o.cast(str),
             "radd": lambda o: [0] * len(o) + o, "rlshift": lambda o: [9] << o, "neg": lambda o: -o, "abs": lambda o: abs(o),
             "getneg": lambda o: o[-1], "rev": lambda o: o[::-1], "index": lambda o: o.index(1), "count": lambda o: o.count(1),
-            "ndims": lambda o: o.ndims(), "T": lambda o: o.T, "hash": lambda o: o.fingerprint(), "str": lambda o: str(o)}
+            "ndims": lambda o: o.ndims(), "T": lambda o: o.T, "hash": lambda o: o.fingerprint(), "str": lambda o: str(o),
+            "eqself": lambda o: o == o, "ltself": lambda o: o < o, "addself": lambda o: o + o,
+            "deepcopy": lambda o: __import__("copy").deepcopy(o), "pycopy": lambda o: __import__("copy").copy(o)}
 PROBES_T = {"peek": lambda o: o.peek(), "iter": lambda o: [list(r) for r in o], "cols": lambda o: o.cols(),
             "column_names": lambda o: o.column_names(), "schema": lambda o: o.schema(), "shape": lambda o: o.shape(),
             "eqs": lambda o: o == 1, "row0": lambda o: list(o[0]), "rowneg": lambda o: list(o[-1]), "rev": lambda o: o[::-1],
@@ -192,7 +194,9 @@ PROBES_T = {"peek": lambda o: o.peek(), "iter": lambda o: [list(r) for r in o], 
             "selfjoin": lambda o: o.inner_join(o, o.cols()[0], o.cols()[0], expect="many_to_many"),
             "fulljoin": lambda o: o.full_join(o[::-1], o.cols()[0], o.cols()[0], expect="many_to_many"),
             "dir": lambda o: dir(o), "str": lambda o: str(o), "T": lambda o: o.T, "to_object": lambda o: o.to_object(),
-            "dropna": lambda o: o.dropna(), "unique": lambda o: o.unique(), "sum": lambda o: o.sum()}
+            "dropna": lambda o: o.dropna(), "unique": lambda o: o.unique(), "sum": lambda o: o.sum(),
+            "eqself": lambda o: o == o, "neself": lambda o: o != o, "ltself": lambda o: o < o, "addself": lambda o: o + o,
+            "deepcopy": lambda o: __import__("copy").deepcopy(o), "pycopy": lambda o: __import__("copy").copy(o)}
 
 
 def choose_step(rng, w, flavor, last=None):
@@ -507,6 +511,8 @@ def run_step(w, st):
             try:
                 if f is not None:
                     f(o)
+            except RecursionError:
+                raise                       # never a legitimate answer: reported as a crash of the step
             except Exception as e:
                 extra["probe_err"] = err_class(e)
         elif op == "sharevec":
@@ -535,6 +541,8 @@ CRASH_CLASSES = {"attr", "other:NameError", "other:UnboundLocalError", "other:Re
 
 def crash_of(st, res):
     """a sentence if step `st` ended in a crash class, else None"""
+    if st.get("op") == "probe" and res == "err:other:RecursionError":
+        return f"read-only operation {st.get('f')!r} ended in RecursionError: {st!r}"
     if isinstance(res, str) and res.startswith("err:") and res[4:] in CRASH_CLASSES and st.get("op") in NO_CRASH_OPS:
         return f"{st['op']} crashed with {res[4:].replace('other:', '').replace('attr', 'AttributeError')} on a legitimate call (a crash, not a refusal): {st!r}"
     return None
